@@ -132,8 +132,8 @@ Proof. vm_compute. reflexivity. Qed.
    of the typed stream; the state it reports now does not. *)
 From QT Require Import C01.RichRun.
 Open Scope string_scope.
-Definition disable_exprs : list (string * expr) :=
-  [("p1", Call "DEFAULT" [PortVal "p0"; Lit (Some (VInt 1))]); ("p2", Call "AVAILABLE" [PortVal "p0"])].
+Definition disable_exprs : list (string * expr * option expr) :=
+  [("p1", Call "DEFAULT" [PortVal "p0"; Lit (Some (VInt 1))], None); ("p2", Call "AVAILABLE" [PortVal "p0"], None)].
 Lemma C01_disable_not_followed_old :
   rich_case ([("p0", KInt, false, Some (VInt 0)); ("p1", KInt, true, Some (VInt 0)); ("p2", KBool, true, Some (VBool true))],
              disable_exprs) = false.
